@@ -204,7 +204,11 @@ fn key_rule(k: &V) -> KeyRule {
             KeyRule::MustRefuse => KeyRule::MustRefuse,
             _ => KeyRule::Either,
         },
-        V::Bool(_) | V::F32(_) | V::F64(_) | V::None | V::Some(_) => KeyRule::Either,
+        V::Some(inner) => match key_rule(inner) {
+            KeyRule::MustRefuse => KeyRule::MustRefuse,
+            _ => KeyRule::Either,
+        },
+        V::Bool(_) | V::F32(_) | V::F64(_) | V::None => KeyRule::Either,
         _ => KeyRule::MustRefuse,
     }
 }
@@ -516,6 +520,37 @@ fn fail(sink: &mut Sink<'_>, e: (String, String), case: Value) {
     sink.fail(e.0, format!("{} ; case {case}", e.1), case);
 }
 
+/// Phase wrapped-keys: a map whose key is one of the 24 key kinds wrapped in Some / a newtype struct,
+/// once or twice (an Option or newtype key is what its content is): refused, or what serde_json makes
+/// of it; a wrapped key of a kind that can not be a key must be refused.
+const KEY_WRAPS: [&str; 5] = ["Some", "newtype", "Some(Some)", "Some(newtype)", "newtype(Some)"];
+fn wrapped_key_case(i: u64, sink: &mut Sink<'_>) {
+    let (k, wrap, three) = ((i % KEYS as u64) as usize, (i / KEYS as u64 % 5) as usize, i / KEYS as u64 / 5 == 1);
+    let s = |x: V| V::Some(Box::new(x));
+    let n = |x: V| V::NewtypeStruct(Box::new(x));
+    let wk = match wrap {
+        0 => s(key(k)),
+        1 => n(key(k)),
+        2 => s(s(key(k))),
+        3 => s(n(key(k))),
+        _ => n(s(key(k))),
+    };
+    let mut entries = vec![(wk, V::U8(1))];
+    if three {
+        entries.insert(0, (V::Str("a".into()), V::U8(0)));
+        entries.push((V::Str("z".into()), V::U8(2)));
+    }
+    let case = json!({"wrapped_key": i, "key": format!("{:?}", key(k)), "wrapped": KEY_WRAPS[wrap], "entries": entries.len()});
+    match judge_tree(&V::Struct(vec![V::Map(entries)])) {
+        Ok((bytes, how)) => {
+            sink.goal(if how == "same" { "wrapped-key-encoded" } else { "wrapped-key-refused" });
+            sink.steps(1);
+            sink.pass(xplore::hash_of(&(bytes, i)));
+        }
+        Err(e) => fail(sink, e, case),
+    }
+}
+
 fn scalar_case(i: u64, sink: &mut Sink<'_>) {
     let Some(c) = char::from_u32(i as u32) else { return };
     let s = c.to_string();
@@ -723,7 +758,7 @@ fn public_values() -> Vec<V> {
 
 pub fn run(tier: Tier) -> i32 {
     let mut rep = Report::new("C03", tier.name());
-    rep.rule = "sweeps (complete index ranges): every Unicode scalar as char, as 1-char str and as str/char map key; all triples over 40 escape-relevant code points as a string and as key+value; every i8/u8/i16/u16 as value and as map key; the structured wide-integer set (0, +-1, MIN, MAX, +-10^k+-1, every value with <=2 set bits +-1, in every width that holds it) as value and key; f64: all 2048 exponents x {0,1,all-ones, each single mantissa bit} x sign; f32: quick = every exponent x sign x 64 mantissa patterns, thorough = all 2^32 bit patterns; public path: 62 structured values x every amount 0,9..=300 of already enqueued bytes. values written through Serializer::collect_str (a Display producing its text in 1..3 pieces of 0..300 bytes, with characters that need escaping) into every buffer length and from eight fill levels of the send buffer. DFS: every value tree within the bounds named by each phase (levels / alphabet / children / map entries) over 24 leaves + 13 containers (one per Serializer method) with 24 key kinds, the smaller ones also serialized into every buffer length 0..=len+1. Distinct = distinct encodings".into();
+    rep.rule = "sweeps (complete index ranges): every Unicode scalar as char, as 1-char str and as str/char map key; all triples over 40 escape-relevant code points as a string and as key+value; every i8/u8/i16/u16 as value and as map key; the structured wide-integer set (0, +-1, MIN, MAX, +-10^k+-1, every value with <=2 set bits +-1, in every width that holds it) as value and key; f64: all 2048 exponents x {0,1,all-ones, each single mantissa bit} x sign; f32: quick = every exponent x sign x 64 mantissa patterns, thorough = all 2^32 bit patterns; public path: 62 structured values x every amount 0,9..=300 of already enqueued bytes. maps whose key is each of the 24 key kinds wrapped in Some / a newtype struct once or twice, alone and between two string keys. values written through Serializer::collect_str (a Display producing its text in 1..3 pieces of 0..300 bytes, with characters that need escaping) into every buffer length and from eight fill levels of the send buffer. DFS: every value tree within the bounds named by each phase (levels / alphabet / children / map entries) over 24 leaves + 13 containers (one per Serializer method) with 24 key kinds, the smaller ones also serialized into every buffer length 0..=len+1. Distinct = distinct encodings".into();
     rep.assumptions = vec![
         "serde_json::to_vec driven by the same Serialize impl is the reference".into(),
         "a key of kind bool / float / Option (which serde_json accepts and zlink refuses) may be refused; str, char, integer and unit-variant keys must be accepted; every other key kind must be refused".into(),
@@ -810,6 +845,8 @@ pub fn run(tier: Tier) -> i32 {
     });
     rep.extra.insert("supplementary_sampled".into(), json!({"cases": st.evals, "seed": seed, "note": "pseudo-random f64 bit patterns and 128-bit integers; sampling, not enumeration"}));
     rep.add(st);
+    rep.require_goal("wrapped-key-refused");
+    rep.add(sweep("wrapped-keys", 2 * 5 * KEYS as u64, &cfg, wrapped_key_case));
     rep.require_goal("value-written-through-collect_str");
     rep.add(sweep("display-values(collect_str)", 3 * PIECE_KINDS * PIECE_KINDS * PIECE_KINDS, &cfg, display_case));
     // the bytes on a real wire: zlink-tokio / zlink-smol transports, a raw reader at the other end
@@ -833,7 +870,9 @@ pub fn replay(v: &Value) -> Replayed {
     // sweep cases are re-run from the recorded case description
     let c = &v["case"];
     let cfg = Config { threads: 1, ..Default::default() };
-    let st = if let Some(ch) = c["char"].as_str() {
+    let st = if let Some(i) = c["wrapped_key"].as_u64() {
+        xplore::sweep_one("replay", i, &cfg, wrapped_key_case)
+    } else if let Some(ch) = c["char"].as_str() {
         let cp = u64::from_str_radix(&ch[2..], 16).unwrap_or(0);
         xplore::sweep_one("replay", cp, &cfg, scalar_case)
     } else if let Some(b) = c["f64_bits"].as_str() {
